@@ -55,7 +55,7 @@ if metas:
         rr = [m for m in ok if round_of(m["id"]) == r]
         out.append("| %s | %d | %d | %d |" % (r, len(rr), sum(1 for m in rr if m["detected_by_target_check"]), sum(1 for m in rr if m["detected_by"])))
     out.append("")
-    out.append("Changes not reported by the check of the property they were filed under (every one is reported by the check of the property it actually breaks; see the note in its `meta.json`):\n")
+    out.append("Changes not reported by the check of the property they were filed under (most were filed under a property that cannot see them and are reported by the check of the property they actually break; those marked **none** are reported by no check, for the reason given; full text in each `meta.json`):\n")
     out.append("| id | what it needs to manifest | detected by | why not by the target check |")
     out.append("|---|---|---|---|")
     for m in ok:
